@@ -932,6 +932,9 @@ class Interp:
             lo = args[0] if args else kw.get("min", kw.get("a_min", NONE))
             hi = args[1] if len(args) > 1 else kw.get("max", kw.get("a_max", NONE))
             return self.pointwise("clip", [recv, lo, hi])
+        if name == "ptp":
+            ax = kw.get("axis", args[0] if args else NONE)
+            return self.arith("Sub", self.reduce("max", recv, ax), self.reduce("min", recv, ax))
         if name == "upper" or name == "lower":
             return ("app", "str." + name, (recv,))
         if name == "absolute":  # Path.absolute
@@ -1564,6 +1567,40 @@ PRIMS = {
 }
 for _r in REDUCERS:
     PRIMS["np." + _r] = _p_reduce(_r)
+
+
+# function-form spellings of operators and reductions (equivalent numpy / jax.numpy API)
+def _p_arith(op):
+    def h(I, args, kw, node):
+        if len(args) != 2 or kw:
+            raise Unsupported(f"np-function form of {op} with {len(args)} arguments / keywords")
+        return I.arith(op, args[0], args[1])
+    return h
+
+
+def _p_cmp(op):
+    def h(I, args, kw, node):
+        return I.compare(op, args[0], args[1])
+    return h
+
+
+def _p_ptp(I, args, kw, node):
+    ax = kw.get("axis", args[1] if len(args) > 1 else NONE)
+    return I.arith("Sub", I.reduce("max", args[0], ax), I.reduce("min", args[0], ax))
+
+
+for _n, _op in (("subtract", "Sub"), ("add", "Add"), ("multiply", "Mult"), ("divide", "Div"), ("true_divide", "Div"),
+                ("power", "Pow"), ("mod", "Mod"), ("remainder", "Mod"), ("floor_divide", "FloorDiv"), ("matmul", "MatMult"),
+                ("logical_and", "BitAnd"), ("logical_or", "BitOr")):
+    PRIMS["np." + _n] = _p_arith(_op)
+for _n, _op in (("less", "Lt"), ("less_equal", "LtE"), ("greater", "Gt"), ("greater_equal", "GtE"), ("equal", "Eq"), ("not_equal", "NotEq")):
+    PRIMS["np." + _n] = _p_cmp(_op)
+PRIMS["np.ptp"] = _p_ptp
+PRIMS["np.amax"] = _p_reduce("max")
+PRIMS["np.amin"] = _p_reduce("min")
+PRIMS["np.negative"] = lambda I, args, kw, node: I.arith("Sub", ZERO, args[0])
+PRIMS["np.square"] = lambda I, args, kw, node: I.arith("Mult", args[0], args[0])
+PRIMS["np.logical_not"] = lambda I, args, kw, node: I.pointwise("not", [args[0]])
 
 
 def _o_unbatch(I, args, kw, node):
